@@ -407,8 +407,16 @@ func sendPing6(r *stack.Route, ident uint16, data buffer.View) *tcpip.Error {
 		return tcpip.ErrInvalidEndpointState
 	}
 
+	// The ICMPv6 checksum covers the IPv6 pseudo-header as well
+	// (RFC 4443, section 2.3).
 	icmpv6.SetChecksum(0)
-	icmpv6.SetChecksum(^header.Checksum(icmpv6, header.Checksum(data, 0)))
+	xsum := header.Checksum([]byte(r.LocalAddress), 0)
+	xsum = header.Checksum([]byte(r.RemoteAddress), xsum)
+	var upperLayerLength [4]byte
+	binary.BigEndian.PutUint32(upperLayerLength[:], uint32(len(icmpv6)+len(data)))
+	xsum = header.Checksum(upperLayerLength[:], xsum)
+	xsum = header.Checksum([]byte{0, 0, 0, uint8(header.ICMPv6ProtocolNumber)}, xsum)
+	icmpv6.SetChecksum(^header.Checksum(icmpv6, header.Checksum(data, xsum)))
 
 	return r.WritePacket(hdr, data.ToVectorisedView(), header.ICMPv6ProtocolNumber, r.DefaultTTL())
 }
